@@ -166,9 +166,49 @@ fn run_one(cs: u64, c: &mut Counters, sigs: &mut BTreeSet<u64>) -> Result<Option
             return Err(format!("INCONCLUSIVE source history did not complete: {other:?}"));
         }
     }
-    let original = dump_of(&a);
+    // one case in 16 upgrades a database that holds nothing at all
+    let original = if cs % 16 == 5 { Dump::new() } else { dump_of(&a) };
+    // what an earlier use of the destination left there: the upgrade prescribes the whole content
+    let leftovers: Dump = if cs % 4 != 0 {
+        let mut l: Dump = dump_of(&a);
+        for id in 0..3u32 {
+            l.push((rawdb::encode_key(0x7777, rawdb::KIND_ITEM, id).to_vec(), vec![0u8; 13]));
+        }
+        l.sort();
+        l.dedup_by(|x, y| x.0 == y.0);
+        l
+    } else {
+        Dump::new()
+    };
     if original.is_empty() {
         c.inc("source_empty");
+        let b = World::new(64 << 20, false);
+        for in_place in [false, true] {
+            let cc = World::new(64 << 20, false);
+            let dst = if in_place { &b } else { &cc };
+            if !in_place {
+                load(dst, &leftovers);
+            }
+            let rtxn = b.env.read_txn().unwrap();
+            let mut wtxn = dst.env.write_txn().unwrap();
+            let r = guarded(|| arroy::upgrade::cosine_from_0_4_to_0_5(&rtxn, adb::<Cosine>(b.db), &mut wtxn, adb::<Cosine>(dst.db)));
+            match r {
+                Ok(Ok(())) => {}
+                other => return Err(format!("cosine_from_0_4_to_0_5 of an empty database failed: {other:?}")),
+            }
+            drop(rtxn);
+            wtxn.commit().unwrap();
+            let got = dump_of(dst);
+            if let Some((k, _)) = got.first() {
+                return Err(format!(
+                    "0.4->0.5 of an empty database {}: the upgraded database holds {} entries (e.g. key {}), the current layout prescribes none",
+                    if in_place { "in place" } else { "into a second environment that had been used before" },
+                    got.len(),
+                    k.iter().map(|b| format!("{b:02x}")).collect::<String>()
+                ));
+            }
+            c.inc("empty_sources_upgraded");
+        }
         return Ok(None);
     }
     // 2. invert into the v0.4 layout and load
@@ -184,6 +224,10 @@ fn run_one(cs: u64, c: &mut Counters, sigs: &mut BTreeSet<u64>) -> Result<Option
     }
     // 3a. upgrade into a second environment
     let cc = World::new(256 << 20, false);
+    if !leftovers.is_empty() {
+        load(&cc, &leftovers);
+        c.inc("destinations_used_before");
+    }
     {
         let rtxn = b.env.read_txn().unwrap();
         let mut wtxn = cc.env.write_txn().unwrap();
@@ -297,8 +341,8 @@ pub fn run(args: &Args) {
         .set("counters", c.to_json())
         .set("sigs", J::Arr(sigs.iter().map(|s| J::s(format!("{s:x}"))).collect()))
         .set("samples", J::Arr(samples))
-        .set("rule", J::s("case = a cosine database produced by an explorer history (1-3 indexes, split_after 1..20, half of the cases with the last round's builds dropped so that updates are pending), inverted byte-wise into the v0.4 layout (key kinds, child kinds in splits, metric name, pending-updates bitmap, no version record), loaded through raw puts, upgraded into a second environment and in place, dumped and compared byte for byte with the original minus version records; then 0.5->0.6; non-trivial+distinct = distinct (open outcome, forest size class, item count class) situations"))
-        .set("required", J::Arr(["upgrade_dumps_equal", "upgrades_checked", "sources_with_pending_updates", "sources_with_item_children", "upgrade_open_Ok", "upgrade_open_NeedBuild", "upgrade_forests_walked", "version_records_expected_and_found"].iter().map(|s| J::s(*s)).collect()))
+        .set("rule", J::s("case = a cosine database produced by an explorer history (1-3 indexes, split_after 1..20, half of the cases with the last round's builds dropped so that updates are pending), inverted byte-wise into the v0.4 layout (key kinds, child kinds in splits, metric name, pending-updates bitmap, no version record), loaded through raw puts, upgraded into a second environment (three times out of four one that holds the leftovers of an earlier use) and in place, dumped and compared byte for byte with the original minus version records; then 0.5->0.6; one case in 16 upgrades a database that holds nothing (the result must hold nothing); non-trivial+distinct = distinct (open outcome, forest size class, item count class) situations"))
+        .set("required", J::Arr(["upgrade_dumps_equal", "upgrades_checked", "sources_with_pending_updates", "sources_with_item_children", "upgrade_open_Ok", "upgrade_open_NeedBuild", "upgrade_forests_walked", "version_records_expected_and_found", "empty_sources_upgraded", "destinations_used_before"].iter().map(|s| J::s(*s)).collect()))
         .set("wall_s", J::Num(t0.elapsed().as_secs_f64()));
     emit("SUMMARY", &j);
 }
